@@ -59,19 +59,23 @@ def scanStep (advance : Char → Nat) (s : Scan) (current : Char) : Scan :=
 
 def utf8Len (cs : List Char) : Nat := cs.foldl (fun n c => n + c.utf8Size) 0
 
+/-- split a character list at a byte offset; defined only when the offset is a character boundary
+    inside the list -/
+def splitAtBytes : List Char → Nat → Option (List Char × List Char)
+  | cs, 0 => some ([], cs)
+  | [], _ + 1 => none
+  | c :: cs, n + 1 =>
+    if c.utf8Size ≤ n + 1 then
+      (splitAtBytes cs (n + 1 - c.utf8Size)).map (fun r => (c :: r.1, r.2))
+    else none
+
 /-- `&input[a..b]` on a character list: defined only when both offsets are character boundaries
-    and `a ≤ b ≤ len` -/
+    and `a ≤ b ≤ len` (otherwise Rust panics) -/
 def sliceBytes (cs : List Char) (a b : Nat) : Option (List Char) :=
-  let rec go (cs : List Char) (off : Nat) (acc : List Char) (started : Bool) : Option (List Char) :=
-    if off = b ∧ (started ∨ a = b ∧ off = a) then some acc.reverse
-    else match cs with
-      | [] => none
-      | c :: rest =>
-        if off = a ∨ started then
-          if off > b then none else go rest (off + c.utf8Size) (c :: acc) true
-        else if off > a then none
-        else go rest (off + c.utf8Size) acc false
-  if a > b then none else go cs 0 [] false
+  if a > b then none else
+  match splitAtBytes cs a with
+  | none => none
+  | some (_, rest) => (splitAtBytes rest (b - a)).map (·.1)
 
 /-- `find_content_string`: `Except.error` = the slice would panic -/
 def findContentWith (advance : Char → Nat) (input : List Char) : Except String (Option (List Char)) :=
